@@ -23,7 +23,6 @@ func ruleCC8(pkgs ...string) Rule {
 		Doc: "goroutine lifetime on every exit: in each function that starts a lexer goroutine, every return reachable after the spawn is preceded by the join, and a deferred recover handler (the exit taken when a reduce action panics) cancels the lexer and joins it before the function returns; otherwise the goroutine stays parked in emit forever",
 		Run: func(c *Ctx, rr *core.RuleResult) {
 			for _, pkg := range pkgs {
-				done := c.fieldVar(pkg, "lexer", "done")
 				cancel := c.fieldVar(pkg, "lexer", "cancel")
 				for _, sp := range c.spawns(pkg) {
 					f := sp.In
@@ -43,16 +42,7 @@ func ruleCC8(pkgs ...string) Rule {
 					if returnsVar {
 						continue
 					}
-					isJoin := func(in *types.Info) func(ast.Node) bool {
-						return func(n ast.Node) bool {
-							u, ok := n.(*ast.UnaryExpr)
-							if !ok || u.Op != token.ARROW || done == nil || core.FieldOf(in, u.X) != done {
-								return false
-							}
-							id, ok := ast.Unparen(u.X.(*ast.SelectorExpr).X).(*ast.Ident)
-							return ok && in.Uses[id] == sp.Var
-						}
-					}
+					isJoin := func(in *types.Info) func(ast.Node) bool { return c.isJoinOf(pkg, in, sp.Var) }
 					fl := core.NewFlow(f)
 					after := fl.Reaches(func(n ast.Node) bool { return n == sp.At }, nil)
 					joined := fl.MustSeen(true, isJoin(info), func(n ast.Node) bool { return n == sp.At })
@@ -2630,16 +2620,111 @@ func ruleEF8() Rule {
 				n++
 				key := fmt.Sprintf("%s|success only with the nested error slot empty #%d", f.Name, n)
 				ok = false
+				// the slot of the nested lexer, not the receiver's: the field itself, a local
+				// copy of it, or what an accessor of the nested lexer returns for it
+				nestedSlot := func(e ast.Expr) bool {
+					fromNested := func(x ast.Expr) bool {
+						if se, isSel := ast.Unparen(x).(*ast.SelectorExpr); isSel && core.FieldOf(info, x) == errF {
+							if id, isID := ast.Unparen(se.X).(*ast.Ident); isID && !isRecv(f, info.Uses[id]) {
+								return true
+							}
+						}
+						return false
+					}
+					if fromNested(e) {
+						return true
+					}
+					id, isID := ast.Unparen(e).(*ast.Ident)
+					if !isID {
+						return false
+					}
+					v, isVar := info.Uses[id].(*types.Var)
+					if !isVar {
+						return false
+					}
+					// a copy made in the header of the very if statement that tests it is tested
+					// before anything can assign it again
+					var header ast.Stmt
+					if cmp, isCmp := c.P.Parent(id).(*ast.BinaryExpr); isCmp {
+						if ifs, isIf := c.P.Parent(cmp).(*ast.IfStmt); isIf && ifs.Cond == ast.Expr(cmp) {
+							header = ifs.Init
+						}
+					}
+					if header == nil && reassigned(f, v) {
+						return false
+					}
+					found := false
+					f.OwnNodes(func(y ast.Node) bool {
+						as, isAs := y.(*ast.AssignStmt)
+						if !isAs || as.Tok != token.DEFINE || (header != nil && ast.Stmt(as) != header) {
+							return true
+						}
+						for i, l := range as.Lhs {
+							lid, isL := l.(*ast.Ident)
+							if !isL || info.Defs[lid] != types.Object(v) {
+								continue
+							}
+							if len(as.Lhs) == len(as.Rhs) {
+								if fromNested(as.Rhs[i]) {
+									found = true
+								}
+								continue
+							}
+							// _, _, err := ll.result()
+							call, isCall := ast.Unparen(as.Rhs[0]).(*ast.CallExpr)
+							if !isCall || len(as.Rhs) != 1 {
+								continue
+							}
+							se, isSel := ast.Unparen(call.Fun).(*ast.SelectorExpr)
+							if !isSel {
+								continue
+							}
+							rid, isRID := ast.Unparen(se.X).(*ast.Ident)
+							if !isRID || isRecv(f, info.Uses[rid]) {
+								continue
+							}
+							fo := core.StaticCallee(info, call)
+							if fo == nil {
+								continue
+							}
+							m := c.P.FuncOf(fo)
+							if m == nil || m.Body == nil || m.Decl == nil || m.Decl.Recv == nil || len(m.Decl.Recv.List) != 1 || len(m.Decl.Recv.List[0].Names) != 1 {
+								continue
+							}
+							mi := m.Info()
+							recv := mi.Defs[m.Decl.Recv.List[0].Names[0]]
+							rets, good := 0, 0
+							m.OwnNodes(func(z ast.Node) bool {
+								if mr, isRet := z.(*ast.ReturnStmt); isRet {
+									rets++
+									if i < len(mr.Results) && core.FieldOf(mi, mr.Results[i]) == errF {
+										if ms, ok2 := ast.Unparen(mr.Results[i]).(*ast.SelectorExpr); ok2 {
+											if mid, ok3 := ast.Unparen(ms.X).(*ast.Ident); ok3 && mi.Uses[mid] == recv {
+												good++
+											}
+										}
+									}
+								}
+								return true
+							})
+							if rets > 0 && rets == good {
+								found = true
+							}
+						}
+						return true
+					})
+					return found
+				}
 				for _, g := range guardsOf(c.P, r, nil) {
 					be, isBE := ast.Unparen(g.cond).(*ast.BinaryExpr)
-					if !isBE || !g.pos || be.Op != token.EQL || core.FieldOf(info, be.X) != errF || !isNilIdent(info, be.Y) {
+					if !isBE || !isNilIdent(info, be.Y) {
 						continue
 					}
-					// the slot of the nested lexer, not the receiver's
-					if se, isSel := ast.Unparen(be.X).(*ast.SelectorExpr); isSel {
-						if id, isID := ast.Unparen(se.X).(*ast.Ident); isID && !isRecv(f, info.Uses[id]) {
-							ok = true
-						}
+					if !(g.pos && be.Op == token.EQL || !g.pos && be.Op == token.NEQ) {
+						continue
+					}
+					if nestedSlot(be.X) {
+						ok = true
 					}
 				}
 				if ok {
@@ -3798,6 +3883,18 @@ func ruleRC8() Rule {
 						}
 						n++
 						key := g.Name + "|enters " + f.Short
+						// stored in a package-level table: the state is entered by whoever reads the table
+						if readers := c.tableReaders(g, se); len(readers) > 0 {
+							for _, h := range readers {
+								hkey := h.Name + "|enters " + f.Short + " through a table"
+								if calls(h.Root(), tr) {
+									rr.OK(h, hkey, se.Pos(), "command position", "the dispatcher that looks the state up translates reserved words: it stands at the beginning of a command")
+								} else {
+									rr.Bad(h, hkey, se.Pos(), f.Short+" restarts the pipeline after an alias substitution (reserved words and `!` in the alias value are recognised), but the function that takes it from the table does not recognise reserved words itself - a position inside a command, where an alias value must be taken as plain words")
+								}
+							}
+							return true
+						}
 						if calls(g.Root(), tr) {
 							rr.OK(g, key, se.Pos(), "command position", "the dispatcher translates reserved words: it stands at the beginning of a command")
 						} else {
